@@ -61,15 +61,22 @@ def run_case(case, ctx):
         if n > 1 and rng.random() < 0.5:
             x[int(rng.integers(0, n))] = 0.0
     scale_arg, shift_kw = float(rng.uniform(0.5, 2.0)), float(rng.normal())
+    # how the extra arguments are given in the judged call: positional + keyword, positional only, keyword only, none (f has
+    # defaults s=1, shift=0); in a third of the cases the object has served another call with other extra arguments before
+    amode = ['both', 'both', 'args', 'kwds', 'none', 'none'][case['seed'] % 6]
+    if amode in ('kwds', 'none'):
+        scale_arg = 1.0
+    if amode in ('args', 'none'):
+        shift_kw = 0.0
 
     if case['family'] == 'affine':
-        def f(z, s, shift=0.0):
+        def f(z, s=1.0, shift=0.0):
             z = np.asarray(z).ravel()
             v = s * (A @ z) + b + shift
             return v[0] if gradient else v
         Jexact = scale_arg * A
     else:
-        def f(z, s, shift=0.0):
+        def f(z, s=1.0, shift=0.0):
             z = np.asarray(z).ravel()
             v = s * np.sin(A @ z) * np.exp(B @ z) + shift
             return v[0] if gradient else v
@@ -110,11 +117,21 @@ def run_case(case, ctx):
         elif k == 1:
             xin = tuple(x.tolist())
             ctx.count('x_given_as:tuple')
-    args, kwds = (scale_arg,), dict(shift=shift_kw)
+    args = (scale_arg,) if amode in ('both', 'args') else ()
+    kwds = dict(shift=shift_kw) if amode in ('both', 'kwds') else {}
+    ctx.count('extra_arguments_given:' + amode)
     cls = nds.Gradient if gradient else nds.Jacobian
     try:
         with np.errstate(all='ignore'):
-            J = cls(rec, **kw)(xin, *args, **kwds)
+            obj = cls(rec, **kw)
+            if (case['seed'] // 6) % 3 == 0:
+                ctx.count('object_called_before_with_other_extra_arguments')
+                try:
+                    obj(np.array(x, copy=True), 3.0, shift=-2.5)
+                except Exception:
+                    pass
+                del rec.calls[:]
+            J = obj(xin, *args, **kwds)
     except Exception as exc:
         ctx.reject('raised', observed=repr(exc)[:200], method=method, bounds=case['bounds'])
         return
@@ -166,7 +183,7 @@ def run_case(case, ctx):
         return
     # ---- forwarding and bounds on every recorded evaluation
     for c in rec.calls:
-        if len(c.args) != 1 or c.args[0] is not args[0] and c.args[0] != args[0] or c.kwds != kwds:
+        if len(c.args) != len(args) or any(a is not b and a != b for a, b in zip(c.args, args)) or c.kwds != kwds:
             ctx.reject('extra_arguments_not_forwarded', observed=[repr(c.args), repr(c.kwds)],
                        expected=[repr(args), repr(kwds)])
             return
